@@ -303,6 +303,28 @@ def main():
         shutil.rmtree(root, ignore_errors=True)
 
 
+def classify(r):
+    """why a mutant that survives the repository's tests is caught by no check (reviewed by hand, expressed as rules)"""
+    f, ctx, line = r["file"], r["context"], r["line"]
+    if "/kits/" in f:
+        return "kit tables: a letter of a published signature / overhang table that no registry plasmid and no property pins"
+    if (f.endswith("core/modules.py") and line == 106) or (f.endswith("core/vectors.py") and line in (84, 96)) or (f.endswith("core/parts.py") and line in (79, 80)):
+        return "3'-overhang branch: enzymes leaving a 3' overhang are outside every quantifier"
+    if "_level" in ctx or "= NotImplemented" in ctx or "cutter_check" in ctx or "isinstance(base, type)" in ctx:
+        return "declarative defaults and class-definition / constructor argument validation: no property speaks about them"
+    if f.endswith("errors.py") or "msg = " in ctx or "raise_from" in ctx:
+        return "exception attributes and message texts that no property reads"
+    if f.endswith("core/_assembly.py") and "ants[" in ctx:
+        return "record-wide annotations written on the product (organism, source, division): not part of C09"
+    if f.endswith("record.py") and line in range(141, 151):
+        return "keyword defaults of reverse_complement (keep id/name/description/annotations/dbxrefs): C14 is silent about them"
+    if f.endswith("_utils.py") and "catch_warnings" in ctx or "simplefilter" in ctx or "self.getter" in ctx:
+        return "BiopythonWarning filter / unused helper: nothing is emitted with the pinned Biopython"
+    if f.endswith("core/vectors.py") and line == 104:
+        return "illegal-site screen of vectors: a further site inside the discarded placeholder is harmless, no property forbids accepting it"
+    return "equivalent mutant or dead code (default arguments never used, conditions that cannot differ, Biopython no longer copies annotations on slicing)"
+
+
 def table():
     rows = [json.loads(l) for l in open(OUT)]
     last = {}
@@ -319,6 +341,11 @@ def table():
         for c in r["caught_by"]:
             per[c] = per.get(c, 0) + 1
     print("caught per check:", " ".join("%s=%d" % kv for kv in sorted(per.items())))
+    cats = {}
+    for r in missed:
+        cats.setdefault(classify(r), []).append(r["id"])
+    for c, ids in sorted(cats.items(), key=lambda kv: -len(kv[1])):
+        print("CATEGORY %3d  %s" % (len(ids), c))
     for r in missed:
         print("MISSED %-28s %s:%d [%s] %r -> %r | %s %s" % (r["id"], r["file"], r["line"], r["kind"], r["original"], r["mutated"], r["context"], ("not-held " + ",".join(r["not_held"])) if r.get("not_held") else ""))
 
